@@ -412,7 +412,7 @@ MANIFEST = {
                   'observations / parameter names that the property text prescribes (shadow description edited independently); '
                   'generate() of the edited model, of a copy and of a saved-and-loaded model equals the denotational meaning of the '
                   'shadow (EUF validity, operations uninterpreted); editing a copy leaves the original unchanged.',
-    'level_note': 'scripts of <=2 edits in the quick tier (3 thorough) over 3 start programs; edit operands are enumerated by '
+    'level_note': 'scripts of <=2 edits in the quick tier (3 thorough) over 6 start programs (thorough: every 1-step script on EVERY 3-node program of the solver-chosen family); edit operands are enumerated by '
                   'solver-chosen indices (feasibility only), values are symbolic; structural claims are evaluated on the concrete '
                   'graph of each path and say so; pickle is trusted. z3 trusted.',
 }
